@@ -34,6 +34,7 @@ import GM.Proof.InlinesLoopX
 import GM.Props.Convert
 import GM.Props.Consts.Ext
 import GM.Props.ConvertX
+import GM.Props.C16E2E
 
 namespace GM.Props.C11
 open GM GM.InlineLoop GM.Proof.InlineLoop
@@ -463,5 +464,54 @@ theorem convertx_conservative_table_partial : type_of% @GM.Props.ConvertX.conver
     `processDelimiters` on children without a `~` delimiter and the link parser keeps that invariant; (3) no emphasis node
     of level 0 (the representation of Strikethrough) in the default model; (4) `render` and `Exts.strike`. -/
 theorem convertx_conservative_strikethrough_partial : type_of% @GM.Props.ConvertX.convertx_conservative_strikethrough_partial := @GM.Props.ConvertX.convertx_conservative_strikethrough_partial
+
+/-- (re-export of `GM.Props.C16E2E.convertf_conservative`) **C11 at whole-document level, full statement**: for EVERY byte string without the two bytes `[^` (every Unicode class
+    assignment, every renderer option set), `goldmark.New(WithExtensions(extension.Footnote), …)` as modelled by `convertF`
+    answers exactly what `convertCore` answers: the same HTML, or the same error outcome. Composition of
+    `convertf_conservative_blockphase` (the block parser is consulted at every line that starts with `[` and declines
+    without a trace), `convertf_inline_phase_without_list` (the inline parser is consulted at every `!` and `[`, may even
+    ADVANCE the reader — `!x^abc]`, `list == nil` is tested behind `block.Advance` — and the loop's SetPosition gives back
+    the very reader it saved), `parseBlock_wf` (the default parsers build no FootnoteLink representation),
+    `footnote_transformer_without_list_concrete` and the renderer lemma (a tree without footnote kinds renders alike with
+    and without FootnoteHTMLRenderer). -/
+theorem convertf_conservative : type_of% @GM.Props.C16E2E.convertf_conservative := @GM.Props.C16E2E.convertf_conservative
+
+/-- (re-export of `GM.Props.C16E2E.convertf_conservative_blockphase`) **C11 for the block phase at whole-document level.** For EVERY source without the two bytes `[^`: the block phase with
+    the footnote block parser registered returns exactly the state of `convertCore`'s block phase (same node store,
+    context, reader — or the same Go panic / monitor outcome), and no Footnote / FootnoteList exists. The parser IS
+    consulted on every line whose first non-space byte is `[`; it declines (`footnote_open_declines_concrete`) — and the
+    `reader.PeekLine()` it has called changes nothing, because openBlocks' own PeekLine has filled the reader's cache
+    already and the cache is coherent (a reader invariant kept by every reader primitive, hence — through the `Pres`
+    calculus of GM.Proof.BlocksPres — by all ten block parsers, the link-reference transformer and the driver). The
+    proof also follows the one place where the footnote parser's presence changes a local variable of openBlocks
+    (`lastBlock` is re-read in front of its `Open`): it is only read when it is fresh. -/
+theorem convertf_conservative_blockphase : type_of% @GM.Props.C16E2E.convertf_conservative_blockphase := @GM.Props.C16E2E.convertf_conservative_blockphase
+
+/-- (re-export of `GM.Props.C16E2E.convertf_inline_phase_without_list`) **the inline phase while the context holds no FootnoteList is the default inline phase** — for every block with
+    well-formed padding-free lines (what the run-time check of `convertF` lets through), WHATEVER the source: the footnote
+    parser in front of the link parser returns nil, and SetPosition restores the reader exactly (under the invariant of
+    GM.Proof.InlinesLoopTotal every field but `lineOffset` is determined by the cursor the reader stands for, and
+    `lineOffset` is −1 behind Advance and behind SetPosition). -/
+theorem convertf_inline_phase_without_list : type_of% @GM.Props.C16E2E.convertf_inline_phase_without_list := @GM.Props.C16E2E.convertf_inline_phase_without_list
+
+/-- (re-export of `GM.Props.C16E2E.convertf_off_is_core`) **Without the extension the model is `convertCore`** (guarded and unguarded): the copied block driver with the footnote
+    state layer erased is the driver of GM.Convert (no Footnote is ever opened: the layer stays empty), every tag is plain,
+    the trigger table is the default one, no FootnoteLink is decoded, the transformer finds no list, and the node renderers'
+    state is the core's. -/
+theorem convertf_off_is_core : type_of% @GM.Props.C16E2E.convertf_off_is_core := @GM.Props.C16E2E.convertf_off_is_core
+
+/-- (re-export of `GM.Props.C16E2E.footnote_open_declines_concrete`) `footnote_open_declines` on the concrete block model: on a peeked line without the two bytes `[^`,
+    (*footnoteBlockParser).Open returns (nil, NoChildren) with the footnote state untouched and the `St` `peekLine` leaves —
+    or panics with the index panic of `line[pos]` (block offset outside the line: never, by the driver). -/
+theorem footnote_open_declines_concrete : type_of% @GM.Props.C16E2E.footnote_open_declines_concrete := @GM.Props.C16E2E.footnote_open_declines_concrete
+
+/-- (re-export of `GM.Props.C16E2E.footnote_inline_declines_concrete`) `footnote_inline_declines` on the concrete inline model: while the context holds no FootnoteList — none exists until a
+    definition has been opened and closed, which needs `[^` — (*footnoteParser).Parse returns nil on EVERY line and leaves
+    the parent's children alone (it may have advanced the reader; the loop puts it back). -/
+theorem footnote_inline_declines_concrete : type_of% @GM.Props.C16E2E.footnote_inline_declines_concrete := @GM.Props.C16E2E.footnote_inline_declines_concrete
+
+/-- (re-export of `GM.Props.C16E2E.footnote_transformer_without_list_concrete`) `footnote_transformer_without_list` on the composed model: without a FootnoteList in the context the transformer
+    returns the document as it is (footnote.go:217-219) -/
+theorem footnote_transformer_without_list_concrete : type_of% @GM.Props.C16E2E.footnote_transformer_without_list_concrete := @GM.Props.C16E2E.footnote_transformer_without_list_concrete
 
 end GM.Props.C11
